@@ -84,6 +84,17 @@ def main():
         os.dup2(devnull, 1)
         os.dup2(devnull, 2)
         logging.raiseExceptions = False
+        # the caller's process: what `tt convert` writes depends on its arguments only, not on whether anybody listens to
+        # its console (a closed or absent standard output, as under a service manager or pythonw) nor on the warning filters
+        ctx = run["id"] % 4
+        if ctx == 1:
+          sys.stdout = open(os.devnull, "w")
+          sys.stdout.close()
+        elif ctx == 2:
+          sys.stdout = None
+        elif ctx == 3:
+          import warnings
+          warnings.simplefilter("error")
         r = run_history(tt, run["jobs"])
         with open(tmp, "w") as fh:
           json.dump(r, fh)
